@@ -649,6 +649,7 @@ def r9_kind_suffix(ctx, rep):
            "as non-integer (the whole file is dropped) and initial values are shown with a piece of the kind name",
            py.nloc(node), witness=None if ok else "1_c_int")
 
+
 RULES = [
     RuleSpec("C01.R5", r5_character_slots, "character selector slots are filled at most once", floor=2),
     RuleSpec("C01.R1", r1_case_neutral, "case-neutral recognition", floor=24),
